@@ -91,3 +91,65 @@ RICH_QUERIES = ("<queries><option key=\"--a\" value=\"1\"/><query><formula>A[] n
                 "<resource type=\"time\" value=\"1\" unit=\"s\"/></expect><result outcome=\"success\" type=\"quality\" "
                 "value=\"true\" timestamp=\"t\"><option key=\"k\" value=\"v\"/></result></query><query><formula>E&lt;&gt; true</formula>"
                 "<comment/></query></queries>")
+
+
+# ---- dynamic templates (spawn / exit / numOf / quantification over processes): a part of the grammar and of the
+# builders that ordinary models never touch
+def dynamic_models(rng, n):
+    """(tag, xml) pairs: a model with a dynamic template declaration/definition pair and one use of a dynamic feature in
+    a label, function or query; parameter lists of declaration and definition agree or deliberately disagree."""
+    from . import xmlgen
+    decl_params = ["int p", "", "int p, int q", "bool p", "const int p", "int &p", "int p, int q, int r", "clock &c", "int p[2]"]
+    uses = [("guard", "sum (q : D) q.x > 2"), ("guard", "(sum (q : D) q.x) > 2"), ("guard", "forall (q : D) (q.x > 2)"),
+            ("guard", "exists (q : D) (q.x > 2)"), ("guard", "forall (q : D) q.x > 2"), ("guard", "forall (q : D) (q.DA)"),
+            ("guard", "numOf(D) > 1"), ("guard", "numOf(n) > 1"), ("guard", "forall (q : E) (q.x > 2)"),
+            ("guard", "forall (q : D) (r.x > 2)"), ("guard", "exists (q : D) (forall (r : D) (q.x > r.x))"),
+            ("guard", "(sum (q : D) q).x > 1"), ("guard", "forall (q : D) (q.nosuch)"), ("guard", "forall (q : n) (q.x > 0)"),
+            ("assignment", "spawn D(1)"), ("assignment", "n = spawn D(1)"), ("assignment", "spawn D(1, 2)"),
+            ("assignment", "spawn D()"), ("assignment", "spawn E(1)"), ("assignment", "spawn n(1)"), ("assignment", "exit()"),
+            ("assignment", "foreach (q : D) q.x = 1"), ("assignment", "n = numOf(D)"), ("assignment", "n = sum (q : D) q.x"),
+            ("invariant", "c <= sum (q : D) q.x"), ("invariant", "forall (q : D) (q.cx <= 5)"),
+            ("query", "A[] forall (q : D) q.x > 2"), ("query", "A[] forall (q : D) (q.x > 2)"), ("query", "E<> exists (q : D) (q.DA)"),
+            ("query", "A[] (sum (q : D) q.x) > 2"), ("query", "E<> numOf(D) > 2"), ("query", "Pr ( <>[0,5] forall (q : D)(q.x > 2) )"),
+            ("query", "Pr ( [][0,5] exists (q : D)(q.DA) )"), ("query", "A[] forall (q : D) (q.x > 2 && exists (r : D) (r.x < q.x))"),
+            ("query", "A[] numOf(P) > 0"), ("query", "simulate [<=10] { numOf(D), sum (q : D) q.x }"),
+            ("dfunc", "void g() { spawn D(1); exit(); }"), ("dfunc", "int h() { return numOf(D) + (sum (q : D) q.x); }"),
+            ("tfunc", "void bye() { exit(); }"), ("tfunc", "void more() { spawn D(x); }")]
+    out = []
+    for i in range(n):
+        kind, text = rng.choice(uses)
+        dp = rng.choice(decl_params)
+        tp = dp if rng.random() < 0.7 else rng.choice(decl_params)
+        if rng.random() < 0.25:
+            text, _ = faults.token_faults(text, rng, 1)
+        gdecl = "int n; clock c;\n"
+        order = rng.random()
+        if order < 0.85:
+            gdecl = "dynamic D(%s);\n" % dp + gdecl
+        if order > 0.95:
+            gdecl += "dynamic D(%s);\ndynamic D(%s);\n" % (dp, tp)
+        if kind == "dfunc":
+            gdecl += text + "\n"
+        labs, inv, q, tdecl = [], None, "", "int x; clock cx;"
+        if kind in ("guard", "assignment"):
+            labs.append((kind, text))
+        elif kind == "invariant":
+            inv = text
+        elif kind == "query":
+            q = xmlgen.queries_xml([text])
+        elif kind == "tfunc":
+            tdecl += "\n" + text
+        dtempl = ('<template><name>D</name>%s<declaration>%s</declaration><location id="d0"><name>DA</name></location>'
+                  '<init ref="d0"/><transition><source ref="d0"/><target ref="d0"/><label kind="assignment">%s</label>'
+                  '</transition></template>') % ("<parameter>%s</parameter>" % xmlgen.esc(tp) if tp else "", xmlgen.esc(tdecl),
+                                                  rng.choice(["x = 1", "exit()", "spawn D(1)", "x = numOf(D)"]))
+        main_first = rng.random() < 0.3
+        xml = xmlgen.simple_model(decl=gdecl, locations=[("id0", "A", [("invariant", inv)] if inv else [], None)],
+                                  edges=[("id0", "id0", labs)], extra_templates=dtempl, queries=q)
+        if main_first:
+            # the defining template in front of the template that uses it
+            a = xml.index("<template>")
+            b = xml.index("</template>") + len("</template>")
+            xml = xml[:a] + dtempl + xml[a:b] + xml[b:].replace(dtempl, "", 1)
+        out.append(("dynamic:" + kind, xml))
+    return out
